@@ -231,6 +231,7 @@ def leaf(rng):
 def run(ctx):
     rng = ctx.rng
     cases = []
+    regex_cases = []
     n_struct = ctx.n(250, 4000)
     for si in range(n_struct):
         shape = rng.randrange(6)
@@ -284,6 +285,13 @@ def run(ctx):
         qs.add(rng.choice(["zz", "0", "e", "True", "None", "_", "1"]))
         for q in qs:
             cases.append({"kind": "find", "t": t, "q": q})
+        # the query is a regular expression: anchored queries and escaped literals (oracle only; the model covers
+        # plain word queries)
+        for x in rng.sample(lv, min(3, len(lv))):
+            if x:
+                regex_cases.append({"kind": "find", "t": t, "q": "^" + re.escape(x) + "$"})
+                regex_cases.append({"kind": "find", "t": t, "q": re.escape(x)})
+                regex_cases.append({"kind": "find", "t": t, "q": r"\A" + re.escape(x[: max(1, len(x) // 2)])})
         if si % 5 == 0 and all(isinstance(k, str) for k, _ in _all_keys(t)) and t:
             dp = [p for p, sub in paths if isinstance(sub, dict) and dict_walk(t, p) is not None]
             for p in dp[:3]:
@@ -295,11 +303,13 @@ def run(ctx):
     iout = [impl_line(c) for c in mcases]
     ctx.compare("keypath", mcases, mout, iout)
     # oracle
-    for c in cases:
+    for c in cases + regex_cases:
         r = oracle(c)
         if r:
             ctx.oracle_fail(c, r[0], r[1])
         p = c.get("p", [])
+        if c["kind"] == "find" and not re.fullmatch(r"[A-Za-z0-9_]+", c["q"]):
+            ctx.classes["find-regex"] += 1
         nontrivial = c["kind"] == "find" or len(p) >= 2 or any(isinstance(x, int) for x in p) or any(
             isinstance(x, str) and not re.fullmatch(r"[A-Za-z_][\w.-]*", x) for x in p)
         ctx.count((c["kind"], wire.enc_tree(c["t"]), repr(p), repr(c.get("v")), c.get("q")), nontrivial, c["kind"],
